@@ -123,10 +123,13 @@ def _call(ctx, pos_exact, no, cc, shift=(0, 0, 0), form=0, by_name=False):
     elif form == 2:
         p = tuple(p)
     try:
+        # keyword forms, and the optional arguments in their documented positional order (sgname, sgno, cell_choice)
+        positional = (want + int(pos_exact[0].denominator)) % 4 == 0
         if by_name:
-            got = ctx.S.multiplicity(p, sgname=name)
+            got = ctx.S.multiplicity(p, name) if positional else ctx.S.multiplicity(p, sgname=name)
         else:
-            got = ctx.S.multiplicity(p, sgno=no, cell_choice=cc)
+            got = ctx.S.multiplicity(p, None, no, cc) if positional else ctx.S.multiplicity(p, sgno=no, cell_choice=cc)
+        mon.config("call form:%s" % ("positional" if positional else "keyword"))
     except Exception as exc:
         mon.check("workload:multiplicity equals the exact orbit size", False, observed=repr(exc), expected=want,
                   detail={"position": [str(f) for f in pos_exact], "group": name})
